@@ -100,6 +100,12 @@ inductive Act where
   | detach
   /-- the application calls `close()` -/
   | close
+  /-- `pauseProducing()` / `resumeProducing()` on the connection (flow control by the application) -/
+  | pause
+  | resume
+  /-- `connectConsumer` with a flow-controlled consumer: its `write()` calls `producer.pauseProducing()` every
+      time (somebody resumes later) -/
+  | consumeFC (expected : Option Nat) (onDone : List Act)
 
 mutual
 /-- size of a script (a termination measure: `Props.C06.agenda_fuel_sufficient`) -/
@@ -108,6 +114,9 @@ def Act.sz : Act → Nat
   | .consume _ s => 5 + szList s
   | .detach => 2
   | .close => 2
+  | .pause => 2
+  | .resume => 2
+  | .consumeFC _ s => 5 + szList s
 def szList : List Act → Nat
   | [] => 0
   | a :: as => a.sz + szList as
@@ -142,6 +151,7 @@ inductive Ev where
   | lose                           -- `transport.loseConnection()`
   | tx (b : Bytes)                 -- `transport.write(b)`
   | raised (e : Err)               -- an exception left an API call made by application code
+  | tpause | tresume               -- `transport.pauseProducing()` / `transport.resumeProducing()`
   deriving DecidableEq, Repr
 
 /-- one activation record of the connection's code that application callbacks can re-enter -/
@@ -163,6 +173,8 @@ structure App where
   storedReads : List (Nat × Option Bytes)
   /-- consumer Deferreds that were fired before a callback was attached: `cid ↦ written` -/
   storedDone : List (Nat × Nat)
+  /-- the attached consumer is flow-controlled: every `write()` ends with `producer.pauseProducing()` -/
+  fcConsumer : Bool
   log : List Ev
 
 structure Conn where
@@ -176,7 +188,7 @@ structure Conn where
 
 def App.init : App :=
   { inbound := [], waiting := [], consumer := none, nextId := 0, nextCid := 0, storedReads := [], storedDone := [],
-    log := [] }
+    fcConsumer := false, log := [] }
 
 /-- the connection as `_negotiationSuccessful` leaves it; `leftover` = bytes that arrived behind
     the handshake in the same `dataReceived` call -/
@@ -225,12 +237,16 @@ def consumerDone (a : App) (k : Consumer) (w : Nat) : App × List Frame :=
   | some s => (a.emit [.cdone w], [.script s])
   | none => ({ a with storedDone := a.storedDone ++ [(k.cid, w)] }, [])
 
+/-- `self._consumer.write(record)`; a flow-controlled consumer pauses us from inside `write()`:
+    `pauseProducing()` only forwards to the transport, parsing is not affected -/
+def writeEvents (a : App) (record : Bytes) (kick : Bool) : List Ev :=
+  (if kick then Ev.ckick else Ev.cwrite record) :: (if a.fcConsumer then [Ev.tpause] else [])
+
 /-- `_writeToConsumer(record)` with `_consumer` = `k` attached; `kick` marks the empty write of
     `connectConsumer(expected=0)`.  Result: the frames pushed by a callback that starts running. -/
 def writeToConsumer (a : App) (k : Consumer) (record : Bytes) (kick : Bool) : App × List Frame :=
   let w := k.written + record.length
-  let a1 := { a with consumer := some { k with written := w },
-                     log := a.log ++ [if kick then .ckick else .cwrite record] }
+  let a1 := { a with consumer := some { k with written := w }, log := a.log ++ writeEvents a record kick }
   match k.expected with
   | some n => if w ≥ n then consumerDone (disconnectConsumer a1) k w else (a1, [])
   | none => (a1, [])
@@ -281,6 +297,16 @@ def lookupRead (l : List (Nat × Option Bytes)) (id : Nat) : Option (Option Byte
 def lookupDone (l : List (Nat × Nat)) (cid : Nat) : Option Nat :=
   (l.find? (fun p => p.1 == cid)).map (·.2)
 
+/-- `connectConsumer(consumer, expected)` called from a script; `fc`: the consumer is flow-controlled -/
+def attachConsumer (a : App) (ex : Option Nat) (fc : Bool) (s rest : List Act) : App × List Frame :=
+  match a.consumer with
+  | some _ => (a.emit [.raised .runtimeError], [])
+  | none =>
+    let k : Consumer := { cid := a.nextCid, written := 0, expected := ex, cb := none }
+    let a1 := { a with consumer := some k, nextCid := a.nextCid + 1, fcConsumer := fc, log := a.log ++ [.reg] }
+    match (if ex = some 0 then writeToConsumer a1 k [] true else (a1, [])) with
+    | (a2, fs) => (a2, fs ++ [.drain, .attachCons k.cid s, .script rest])
+
 /-- One step of the top activation record.  Result: the new state and the frames that replace the
     popped one (first = innermost).  Python's control flow, frame by frame:
     * `deliver`: `while self._inbound_records and self._waiting_reads: … d.callback(r)` — an attached
@@ -308,14 +334,11 @@ def appStep (a : App) : Frame → App × List Frame
     -- receive_record(): d = Deferred(); self._waiting_reads.append(d); self._deliverRecords(); return d
     ({ a with waiting := a.waiting ++ [⟨a.nextId, none⟩], nextId := a.nextId + 1 },
      [.deliver, .attachRead a.nextId s, .script rest])
-  | .script (.consume ex s :: rest) =>
-    match a.consumer with
-    | some _ => (a.emit [.raised .runtimeError], [])
-    | none =>
-      let k : Consumer := { cid := a.nextCid, written := 0, expected := ex, cb := none }
-      let a1 := { a with consumer := some k, nextCid := a.nextCid + 1, log := a.log ++ [.reg] }
-      match (if ex = some 0 then writeToConsumer a1 k [] true else (a1, [])) with
-      | (a2, fs) => (a2, fs ++ [.drain, .attachCons k.cid s, .script rest])
+  | .script (.consume ex s :: rest) => attachConsumer a ex false s rest
+  | .script (.consumeFC ex s :: rest) => attachConsumer a ex true s rest
+  -- `pauseProducing()` / `resumeProducing()`: `self.transport.pauseProducing()` / `.resumeProducing()`, nothing else
+  | .script (.pause :: rest) => (a.emit [.tpause], [.script rest])
+  | .script (.resume :: rest) => (a.emit [.tresume], [.script rest])
   | .script (.detach :: rest) =>
     match a.consumer with
     | none => (a.emit [.raised .attributeError], [])     -- `None.unregisterProducer()`
@@ -550,7 +573,8 @@ lost <S|R> <done|reset|none>                -> summary      (connectionLost(reas
 ```
 summary = `<ok|ExceptionName> st=… buf=<len> sn=… rn=… q=<queued> wait=<ids> cons=<written/expected|-> ev=[new events]`
 
-script = `-` (nothing) or postfix tokens joined by `.`: `d` = disconnectConsumer(), `x` = close(),
+script = `-` (nothing) or postfix tokens joined by `.`: `d` = disconnectConsumer(), `x` = close(), `p` / `u` =
+pauseProducing() / resumeProducing(), `f<E>:<N>` = like `c` with a consumer that pauses its producer in every write(),
 `r<N>` = receive_record() whose callback runs the N actions before it, `c<E>:<N>` = connectConsumer(expected
 = E, `n` for None) whose Deferred's callback runs the N actions before it.  E.g. `r0.r1` = a read whose
 callback reads again; `r0.c5:1` = attach a consumer for 5 bytes and, when it is done, read one record.
@@ -596,6 +620,8 @@ def showEv : Ev → Option String
   | .lose => some "lose"
   | .tx b => some s!"tx={toHex b}"
   | .raised e => some ("!" ++ e.name)
+  | .tpause => some "pause"
+  | .tresume => some "resume"
 
 def showConn (old : Nat) (c : Conn) (exc : Option Err) : String :=
   let st := match c.state with | .records => "records" | .hungUp => "hung-up"
@@ -613,17 +639,19 @@ def popN (n : Nat) (stack : List Act) : Option (List Act × List Act) :=
 def scriptToken (stack : List Act) (t : String) : Option (List Act) :=
   if t == "d" then some (.detach :: stack)
   else if t == "x" then some (.close :: stack)
+  else if t == "p" then some (.pause :: stack)
+  else if t == "u" then some (.resume :: stack)
   else if t.startsWith "r" then do
     let n ← (String.ofList (t.toList.drop 1)).toNat?
     let (kids, rest) ← popN n stack
     pure (.read kids :: rest)
-  else if t.startsWith "c" then
+  else if t.startsWith "c" || t.startsWith "f" then
     match (String.ofList (t.toList.drop 1)).splitOn ":" with
     | [e, n] => do
       let ex ← if e == "n" then some none else e.toNat?.map some
       let n ← n.toNat?
       let (kids, rest) ← popN n stack
-      pure (.consume ex kids :: rest)
+      pure ((if t.startsWith "f" then Act.consumeFC ex kids else Act.consume ex kids) :: rest)
     | _ => none
   else none
 
